@@ -2,7 +2,7 @@
 
 use crate::install::error::InstallError;
 use binrw::{BinRead, BinResult, BinWrite};
-use std::io::{Read, Seek, Write};
+use std::io::{Read, Seek, SeekFrom, Write};
 
 /// Tag types used to categorize files in install manifests
 #[derive(Debug, Clone, Copy, PartialEq, Eq, Hash)]
@@ -221,8 +221,18 @@ impl BinRead for InstallTag {
             err: Box::new(InstallError::InvalidTagType(tag_type_value)),
         })?;
 
-        // Read bit mask
+        // Read bit mask. Its size is derived from the header's entry count,
+        // so check it against what the input still holds before allocating.
         let bit_mask_size = (entry_count as usize).div_ceil(8);
+        let mask_start = reader.stream_position()?;
+        let input_end = reader.seek(SeekFrom::End(0))?;
+        reader.seek(SeekFrom::Start(mask_start))?;
+        if bit_mask_size as u64 > input_end.saturating_sub(mask_start) {
+            return Err(binrw::Error::Io(std::io::Error::new(
+                std::io::ErrorKind::UnexpectedEof,
+                "tag bit mask extends past end of input",
+            )));
+        }
         let mut bit_mask = vec![0u8; bit_mask_size];
         reader.read_exact(&mut bit_mask)?;
 
